@@ -365,6 +365,22 @@ Definition rule_entry_point (h : header) (defs : PM.t dinfo) (dc : decos) (fns :
                  if memz v iface then []
                  else if v14 || (sc =? 1) || (sc =? 3) then [V "interface_missing_used_variable" idx v sc] else [])
        used ++
+  (* no two interface variables of one storage class share a Location (without Component/Index) or a BuiltIn *)
+  (let vars_of (sc : Z) := filter (fun v => nthz 0 (def_args defs v) =? sc) iface in
+   let collisions (sc : Z) :=
+     (fix go (l : list Z) : list violation :=
+        match l with
+        | [] => []
+        | v :: r =>
+          flat (fun w =>
+            (if has_deco dc v D_Location && has_deco dc w D_Location &&
+                (first_val (deco_vals dc v D_Location) =? first_val (deco_vals dc w D_Location)) &&
+                negb (has_deco dc v 31 || has_deco dc w 31 || has_deco dc v 32 || has_deco dc w 32)
+             then [V "interface_location_used_twice" idx v w] else []) ++
+            (if has_deco dc v D_BuiltIn && has_deco dc w D_BuiltIn && (builtin_of dc v =? builtin_of dc w)
+             then [V "interface_builtin_used_twice" idx v w] else [])) r ++ go r
+        end) (vars_of sc) in
+   collisions 1 ++ collisions 3) ++
   (if (model =? 4) && negb (memz 7 modes || memz 8 modes) then [V "fragment_entry_without_origin_mode" idx fid 0] else []) ++
   (if (model =? 4) && memz 8 modes then [V "fragment_origin_lower_left_in_vulkan" idx fid 0] else []) ++
   (if (model =? 5) && negb (memz 17 modes || memz 38 modes ||
